@@ -272,8 +272,7 @@ theorem getNextError_inv (dt : DType) (c : Sim.CodeMats) (n : Nat) (decode : Lis
           split at h <;> cases h
         | some b =>
           rw [getNextError_eq dt c n decode rate ds prev d dq σ a b hr hq hσ ha hb] at h
-          exact ⟨dq, σ, a, b, hr, by first | rfl | assumption, by first | rfl | assumption,
-            by first | rfl | assumption, by first | rfl | assumption, (Except.ok.inj h).symm⟩
+          exact ⟨dq, σ, a, b, hr, rfl, hσ, rfl, hb, (Except.ok.inj h).symm⟩
 
 /-- the recorded value is the probability (at this chain's rate) of the error the chain is
     left in -/
